@@ -236,19 +236,30 @@ func gatingProxy(c *h.Case, cli *h.Client, name string, hb *hback, maxFailed int
 		return len(cls) >= len(downs) && len(ats) >= len(ups)
 	})
 	c.Ev("gating", "name", name, "maxFailed", maxFailed, "outcomes", sb.String(), "model_ups", len(ups), "model_downs", len(downs), "registrations", len(ats), "closes", len(cls))
-	for j, t := range ats {
-		if j >= len(ups) {
-			fail("registered-without-health-transition", "%s (maxFailed %d): outcomes %s give %d healthy transition(s), %d NewProxy messages reached the server", name, maxFailed, sb.String(), len(ups), len(ats))
-			return
+	// walk the server-side events in time order: the first one that has no cause in the probe history is reported
+	ia, ic := 0, 0
+	for ia < len(ats) || ic < len(cls) {
+		if ic >= len(cls) || (ia < len(ats) && ats[ia] <= cls[ic]) {
+			j, t := ia, ats[ia]
+			ia++
+			if j >= len(ups) {
+				fail("registered-without-health-transition", "%s (maxFailed %d): outcomes %s give %d healthy transition(s), %d NewProxy messages reached the server", name, maxFailed, sb.String(), len(ups), len(ats))
+				return
+			}
+			if t < ups[j] {
+				key := "registered-again-without-health-transition"
+				if j == 0 {
+					key = "registered-before-first-successful-probe"
+				}
+				fail(key, "%s: NewProxy number %d reached the server %v before the probe that made the proxy healthy (for the %d. time) had returned (outcomes %s)", name, j+1, time.Duration(ups[j]-t), j+1, sb.String())
+				return
+			}
+			continue
 		}
-		if t < ups[j] {
-			fail("registered-before-first-successful-probe", "%s: NewProxy number %d reached the server %v before the probe that made the proxy healthy had returned (outcomes %s)", name, j+1, time.Duration(ups[j]-t), sb.String())
-			return
-		}
-	}
-	for j, t := range cls {
+		j, t := ic, cls[ic]
+		ic++
 		if j >= len(downs) {
-			fail("withdrawn-without-max-consecutive-failures", "%s (maxFailed %d): outcomes %s never contain %d failures in a row more than %d time(s), yet the server closed the proxy %d time(s)", name, maxFailed, sb.String(), maxFailed, len(downs), len(cls))
+			fail("withdrawn-without-max-consecutive-failures", "%s (maxFailed %d): outcomes %s contain %d failures in a row only %d time(s), yet the server closed the proxy %d time(s)", name, maxFailed, sb.String(), maxFailed, len(downs), len(cls))
 			return
 		}
 		if t < downs[j] {
